@@ -18,6 +18,13 @@ Bounded exhaustive exploration on the real ChoiceSetsGeneration / GenerateModel 
          built on the SAME alternative / individual data frames (same nest names with other alphas, the same structure,
          a third one, no CNL at all; with or without a generation into the same file): every history of <= 2 earlier
          operations and <= 1 later one from that alphabet, then the unchanged oracles on the context under test.
+ part S  (hand-over forms) the same sizes given as list / tuple / generator / one-shot iterator / dict-values view (declared
+         type Iterable[int]; first and MEV sizes alike) x the same partition given as list of sets / tuple of sets / without
+         the full set (default = union of the segments): 14 non-default combinations, the first tables generated again.
+ part P  (non-partitions) every ordered list of 2..3 (thorough: 2..4, and J = 5 with 2..3) non-empty subsets of the ids in
+         which two segments share an alternative (one segment listed twice included), full set given or defaulted: it is
+         refused, or - when accepted - no choice set / MEV sample generated from it (every chosen alternative, sizes all-1 and
+         all-n, sampler answering first-n / last-n) contains an alternative twice.
 
 Oracles (reference: vf/ref_sampling.py, plain Python):
   per generated row  - chosen first, no duplicates, exactly k_s per stratum (chosen counts), members = what the
@@ -41,7 +48,9 @@ LEVEL = 'exploration'
 TECHNIQUE = ('bounded exhaustive enumeration of partitions x sample sizes x choices x every answer of the owned sampler '
              '(DataFrame.sample seam) on the real choice-set generator, against a plain-Python reference of the protocol '
              'and of the logit / nested / cross-nested likelihoods; the nests handed over in every form (names absent, '
-             'colliding, plain tuple / list); bounded histories of other contexts / generations on the same data frames')
+             'colliding, plain tuple / list); bounded histories of other contexts / generations on the same data frames; '
+             'sizes / partition handed over in every form of the declared types (generator, iterator, view, tuple, default full '
+             'set); every list of overlapping segments (non-partition) refused or free of duplicates')
 RULE = ('one case per generated row = (alternative table, partition, size vector, specification, chosen alternative, '
         'answer of the first sampler [, MEV partition, MEV sizes, answer of the second sampler]) and one case per '
         '(generated table, model, parameter point) likelihood comparison. A row is non-trivial when the sampler had a '
@@ -53,7 +62,11 @@ RULE = ('one case per generated row = (alternative table, partition, size vector
         'single-nest pairs): all pairs on the first two tables of fully sampled contexts (thorough: on all their tables and '
         'the first two of every other), 3 (6) rotating pairs elsewhere. Part H: the first tables of a context generated again '
         'inside each of 9 histories (<= 2 earlier, <= 1 later operation on the same frames): all 9 for fully sampled CNL '
-        'contexts (thorough: every fully sampled context, two tables), one (three) rotating history for every other context.')
+        'contexts (thorough: every fully sampled context, two tables), one (three) rotating history for every other context. '
+        'Part S: the 3-row table of a context generated again with the sizes / partition in another of 14 form combinations: '
+        'all 14 for every 6th fully sampled MEV context (thorough: every 3rd fully sampled context), one (two) rotating '
+        'combinations for every other context. Part P: one case per (ordered list of overlapping segments, full set given / '
+        'defaulted); distinct = distinct lists.')
 ASSUMPTIONS = [
     'the only random source of the generator is pandas.DataFrame.sample called from sampling_of_alternatives.py; the seam '
     'counts its calls, so a bypass (another random source) is reported as a violation, not missed',
@@ -66,6 +79,11 @@ ASSUMPTIONS = [
     'stratum only; histories use the partition / sizes of the context under test, the next utility specification and nest '
     'names na / nb; nests with equal names are enumerated for the nested model only (for the cross-nested model the name is '
     'the column name of the membership degree, so equal names are outside the statement)',
+    'part S: only forms inside the declared types Iterable[int] / Sequence[set]; a numpy array of sizes is observed and '
+    'counted only (it is refused as MEV sizes: truth value of an array), never a violation',
+    'part P: a list of overlapping segments that the library ACCEPTS is generated from with two sampler answers only '
+    '(first n / last n rows), one individual per table; an exception during that generation is counted, not a violation '
+    '(the statement only forbids an alternative twice)',
     'likelihoods are compared at relative 1e-10 (+1e-12); rows whose sampled nested/CNL term needs log(0) (a nest with no '
     'sampled MEV member) are out of domain and counted',
 ]
@@ -1203,53 +1221,48 @@ def _non_partition_case(case, rec):
     utility, cvs = build_spec('S0')
     outcomes = []
     reported = set()
-    for role in ('first', 'mev'):
-        for kname in ('one', 'all'):
-            ks = [1 if kname == 'one' else len(b) for b in segs]
-            inds = [individual(J, u, c) for u, c in enumerate(ids)]
-            alts_df = pd.DataFrame({c: [a[c] for a in alts] for c in [R.ID] + ATTRS})
-            ind_df = pd.DataFrame({c: [i[c] for i in inds] for c in ['choice'] + IND_COLS})
+    for role, kname, (u, chosen) in itertools.product(('first', 'mev'), ('one', 'all'), list(enumerate(ids))):
+        # one individual per generated table: choice sets of unequal length cannot share a table
+        ks = [1 if kname == 'one' else len(b) for b in segs]
+        ind = individual(J, u, chosen)
+        alts_df = pd.DataFrame({c: [a[c] for a in alts] for c in [R.ID] + ATTRS})
+        ind_df = pd.DataFrame({c: [ind[c]] for c in ['choice'] + IND_COLS})
+        try:
+            if role == 'first':
+                kw = dict(the_partition=make(), sample_sizes=list(ks))
+            else:
+                kw = dict(the_partition=Partition([set(ids)], full_set=set(ids)), sample_sizes=[J],
+                          mev_partition=make(), mev_sample_sizes=list(ks))
+            ctx = SamplingContext(individuals=ind_df, choice_column='choice', alternatives=alts_df, id_column=R.ID,
+                                  biogeme_file_name=FILE_NAME, utility_function=utility, combined_variables=cvs, **kw)
+        except Exception as e:
+            outcomes.append((role, kname, chosen, type(e).__name__, 'refused-by-SamplingContext'))
+            continue
+        for policy in ('first', 'last'):
+            install(PolicySeam(policy))
             try:
-                if role == 'first':
-                    kw = dict(the_partition=make(), sample_sizes=list(ks))
-                else:
-                    kw = dict(the_partition=Partition([set(ids)], full_set=set(ids)), sample_sizes=[J],
-                              mev_partition=make(), mev_sample_sizes=list(ks))
-                ctx = SamplingContext(individuals=ind_df, choice_column='choice', alternatives=alts_df, id_column=R.ID,
-                                      biogeme_file_name=FILE_NAME, utility_function=utility, combined_variables=cvs, **kw)
+                data = ChoiceSetsGeneration(ctx).sample_and_merge(recycle=False).data
             except Exception as e:
-                outcomes.append((role, kname, type(e).__name__, 'refused-by-SamplingContext'))
+                outcomes.append((role, kname, chosen, policy, type(e).__name__, 'generation-raises'))
+                rec.count('non_partition_accepted_generation_raises')
                 continue
-            for policy in ('first', 'last'):
-                install(PolicySeam(policy))
-                try:
-                    data = ChoiceSetsGeneration(ctx).sample_and_merge(recycle=False).data
-                except Exception as e:
-                    outcomes.append((role, kname, policy, type(e).__name__, 'generation-raises'))
-                    rec.count('non_partition_accepted_generation_raises')
-                    continue
-                finally:
-                    uninstall()
-                    _cleanup()
-                pat = re.compile(r'^' + ('_MEV_' if role == 'mev' else '') + re.escape(R.ID) + r'_(\d+)$')
-                cols = [c for c in data.columns if pat.match(c)]
-                dup = None
-                for ri in range(len(data)):
-                    got = [_fnum(data[c].iloc[ri]) for c in cols]
-                    got = [int(v) for v in got if v is not None and not math.isnan(v)]
-                    if len(set(got)) != len(got):
-                        dup = (ri, got)
-                        break
-                outcomes.append((role, kname, policy, 'alternative-twice' if dup else 'no-duplicate'))
-                if dup and role not in reported:
-                    reported.add(role)
-                    rec.violation(
-                        f'C19|non-partition-accepted-and-alternative-twice|{cls}|{role}',
-                        f'the segments {segs} (full set {"given: " + str(ids) if full else "left to the default"}) are not a '
-                        f'partition ({cls}) but were accepted; with sizes {ks} as the {role} partition the '
-                        f'{"choice set" if role == "first" else "MEV sample"} generated for the individual choosing '
-                        f'{inds[dup[0]]["choice"]} is {dup[1]} (sampler answering with the {policy} n rows)',
-                        dict(case), expected='refused, or no alternative twice', observed=dup[1])
+            finally:
+                uninstall()
+                _cleanup()
+            pat = re.compile(r'^' + ('_MEV_' if role == 'mev' else '') + re.escape(R.ID) + r'_(\d+)$')
+            got = [_fnum(data[c].iloc[0]) for c in data.columns if pat.match(c)]
+            got = [int(v) for v in got if v is not None and not math.isnan(v)]
+            dup = len(set(got)) != len(got)
+            outcomes.append((role, kname, chosen, policy, 'alternative-twice' if dup else 'no-duplicate'))
+            if dup and role not in reported:
+                reported.add(role)
+                rec.violation(
+                    f'C19|non-partition-accepted-and-alternative-twice|{cls}|{role}',
+                    f'the segments {segs} (full set {"given: " + str(ids) if full else "left to the default"}) are not a '
+                    f'partition ({cls}) but were accepted; with sizes {ks} as the {role} partition the '
+                    f'{"choice set" if role == "first" else "MEV sample"} generated for the individual choosing '
+                    f'{chosen} is {got} (sampler answering with the {policy} n rows)',
+                    dict(case), expected='refused, or no alternative twice', observed=got)
     rec.case(key, (J, segs, full, outcomes), outcome=('P', cls, len(segs), 'accepted', tuple(sorted(set(o[-1] for o in outcomes)))))
 
 
